@@ -227,6 +227,17 @@ func c04TablePrograms() []c4prog {
 			pr(iv("bn"), ts.Len{X: ts.VarRef{Name: "bd", Ty: ts.TIntS}}),
 		}, []ts.Stmt{mk, take, give}
 	})
+	// the arguments of the file builtins are operands like any other: path, data, append flag in source order, once each
+	add("file-builtin-arguments", func(b *c4b) ([]ts.Stmt, []ts.Stmt) {
+		return []ts.Stmt{
+			ts.Write{P: b.tstr(sl("c4a.txt")), D: b.tstr(sl("one"))},
+			ts.Write{P: b.tstr(sl("c4a.txt")), D: b.tstr(sl("two")), A: b.tb(bl(true))},
+			ts.Write{P: b.tstr(sl("c4b.txt")), D: ts.Bin{Op: "+", Ty: ts.TString, L: b.tstr(sl("x")), R: b.tstr(sl("y"))}, A: b.tb(bl(false))},
+			pr(ts.Read{P: b.tstr(sl("c4a.txt"))}, ts.Exists{P: b.tstr(sl("c4b.txt"))}, ts.Exists{P: b.tstr(sl("c4none.txt"))}),
+			ts.Write{P: ts.Bin{Op: "+", Ty: ts.TString, L: b.tstr(sl("c4")), R: b.tstr(sl("c.txt"))}, D: ts.Read{P: b.tstr(sl("c4b.txt"))}, A: ts.Exists{P: b.tstr(sl("c4a.txt"))}},
+			pr(ts.Read{P: sl("c4c.txt")}, ts.Cmp{Op: "==", L: ts.Read{P: b.tstr(sl("c4b.txt"))}, R: ts.Read{P: b.tstr(sl("c4c.txt"))}}),
+		}, nil
+	})
 	add("copy-range-panic", func(b *c4b) ([]ts.Stmt, []ts.Stmt) {
 		mk := ts.FuncDef{Name: "mkslice", Params: []ts.Param{{Name: "n", Ty: ts.TInt}}, Rets: []ts.Type{ts.TIntS}, Body: []ts.Stmt{pr(sl("mk"), iv("n")), ts.Return{Vals: []ts.Expr{ts.SliceLit{Elem: ts.TInt, Elems: []ts.Expr{iv("n"), iv("n")}}}}}}
 		return []ts.Stmt{ts.VarDecl{Names: []string{"dst"}, Ty: ts.TIntS, Tys: []ts.Type{ts.TIntS}, Form: ts.DeclVarType},
